@@ -378,6 +378,7 @@ def install():
 
         @property
         def key_size(self):
+            REC.add("rsa_bits", [self.handle], ok(self.k.key_size))
             return self.k.key_size
 
         def encrypt(self, data, padding):
@@ -783,7 +784,7 @@ def do_encrypt(ser, protected, plaintext, recips, unprotected=None, aad=None, se
     return obs, info
 
 
-def case_enc(obs, info):
+def case_enc(obs, info, with_keys=False):
     ser = info["ser"]
     sk = c_opt(info["sender"], c_key)
     rs = []
@@ -796,14 +797,20 @@ def case_enc(obs, info):
     d = "(mk_edraw %s %s %s)" % (c_hex(info["cek"]), c_hex(info["civ"]),
                                  c_list(["(mk_rdraw %s %s)" % (c_hex(a), c_hex(b)) for a, b in info["rdraws"]]))
     g = c_registry(info["verify_all"], info["names"])
+    head = "%s %s %s %s" % (c_otable(info["log"]), g, o, d)
     if ser == "compact":
         exp = "(Ok %s)" % c_hex(obs[1]) if obs[0] == "ok" else "(Err %s)" % c_exn(obs[1])
-        return "CEncCompact %s %s %s %s %s" % (c_otable(info["log"]), g, o, d, exp)
+        if with_keys:
+            return "CEncCompactK %s %s %s %s" % (head, c_kkey(info["recips"][0][1]), c_opt(info["sender"], c_kkey), exp)
+        return "CEncCompact %s %s" % (head, exp)
     exp = "(Ok %s)" % c_pv(obs[1]) if obs[0] == "ok" else "(Err %s)" % c_exn(obs[1])
-    return "CEncJson %s %s %s %s %s" % (c_otable(info["log"]), g, o, d, exp)
+    if with_keys:
+        ks = c_list(["(%s, %s)" % (c_kkey(k), c_opt(info["sender"], c_kkey)) for _, k in info["recips"]])
+        return "CEncJsonK %s %s %s" % (head, ks, exp)
+    return "CEncJson %s %s" % (head, exp)
 
 
-IMPORTS = ["From Model Require Import Base PyVal JweBase JweCrypto JweMsg JweCases."]
+IMPORTS = ["From Model Require Import Base PyVal JweBase JweCrypto JweMsg JweKeys JweCases."]
 
 
 # --------------------------------------------------------------------------
@@ -948,3 +955,66 @@ def coq_eval(cases, shard=30, max_chars=90000, jobs=10, attempt=0):
     res["errors"] = errors
     res["failing"].sort()
     return res
+
+
+# --------------------------------------------------------------------------
+# key resolution (model/JweKeys.v): Key / KeySet / callable, kid, use, skid
+# --------------------------------------------------------------------------
+def key_with(k, **params):
+    """a copy of key k with extra JWK members (kid, use, ...)"""
+    from joserfc.jwk import JWKRegistry
+    d = k.as_dict(private=True)
+    for a, b in params.items():
+        if b is None:
+            d.pop(a, None)
+        else:
+            d[a] = b
+    return JWKRegistry.import_key(d)
+
+
+def c_kkey(k) -> str:
+    return "(mk_kkey %s %s %s)" % (c_key(k), c_pv(k.get("kid")), c_pv(k.get("use")))
+
+
+def c_src0(x) -> str:
+    from joserfc.jwk import KeySet
+    if isinstance(x, KeySet):
+        return "(KSet %s)" % c_list([c_kkey(k) for k in x.keys])
+    return "(KOne %s)" % c_kkey(x)
+
+
+def c_src(x) -> str:
+    if isinstance(x, list):
+        return "(KFun %s)" % c_list([c_src0(y) for y in x])
+    return "(KPlain %s)" % c_src0(x)
+
+
+def do_decrypt_k(ser, token, keysrc, sender=None, verify_all=True):
+    """keysrc: Key | KeySet | list of them (handed over as a callable, one call per recipient)"""
+    from joserfc import jwe
+    reg = registry(verify_all)
+    pk = key_picker(keysrc) if isinstance(keysrc, list) else keysrc
+    with recording() as rec:
+        try:
+            if ser == "compact":
+                o = jwe.decrypt_compact(token, pk, registry=reg, sender_key=sender)
+            else:
+                o = jwe.decrypt_json(copy.deepcopy(token), pk, registry=reg, sender_key=sender)
+            obs = ("ok", bytes(o.plaintext), copy.deepcopy(o.protected), o)
+        except BaseException as e:  # noqa
+            obs = ("err", exn_class(e), e)
+    return obs, (list(rec.log), rec.nondet)
+
+
+def case_dec_k(ser, token, keysrc, sender, verify_all, obs, log):
+    g = c_registry(verify_all)
+    sk = c_opt(sender, c_src0)
+    if ser == "compact":
+        tb = token if isinstance(token, bytes) else token.encode("utf-8")
+        return "CDecCompactK %s %s %s %s %s %s" % (c_otable(log), g, c_hex(tb), c_src(keysrc), sk, c_obs_dec(obs))
+    return "CDecJsonK %s %s %s %s %s %s" % (c_otable(log), g, c_pv(token), c_src(keysrc), sk, c_obs_dec(obs))
+
+
+def case_enc_k(obs, info):
+    """like case_enc, with the use checks of the recipient / sender Key objects"""
+    return case_enc(obs, info, with_keys=True)
